@@ -480,6 +480,9 @@ def printable_rule(run, ctx):
         if mm:
             for arm in mm[0]["arms"]:
                 tbl[H.pat_canon(arm["pat"])] = H.canon(arm["body"])
+        extra = [k_ for k_ in tbl if k_ not in ("(0,1)", "(0,MAX)", "(1,MAX)", "(lo,hi)")]
+        if extra:
+            run.violation(fam, label, "repeat/extra-arms", H.where(a), "the repeat suffix table of to_str has additional special cases %s: every bound pair other than ?, *, + must be printed as {lo}, {lo,} or {lo,hi} (a special case changes what the trailing lazy `?` applies to)" % extra)
         want = {"(0,1)": "buf.push('?')", "(0,MAX)": "buf.push('*')", "(1,MAX)": "buf.push('+')"}
         for k_, v_ in want.items():
             if tbl.get(k_) != v_:
